@@ -42,8 +42,8 @@ type vtPlan struct {
 	Class   string           `json:"class"`   // traces of one (routine, config, class) must be identical
 	Content string           `json:"content"` // which content assignment
 	Bufs    map[string]vtBuf `json:"bufs"`
-	Secret  []string         `json:"secret"`  // buffers whose bytes are taint sources
-	Public  []string         `json:"public"`  // buffers that carry no secret (lengths etc. are in registers)
+	Secret  []string         `json:"secret"` // buffers whose bytes are taint sources
+	Public  []string         `json:"public"` // buffers that carry no secret (lengths etc. are in registers)
 	Ret     *int             `json:"ret,omitempty"`
 }
 
